@@ -187,6 +187,12 @@ func DecodeClaimsFromCBOR(buf []byte) (IClaims, error) {
 		return nil, err
 	}
 
+	// note: CBOR null and undefined decode, as a no-op, into any Go value:
+	// without this check they would be taken for an empty claims-set.
+	if !startsWithCBORMap(buf) {
+		return nil, errors.New("CBOR claims-set is not a map")
+	}
+
 	entry, ok := profilesRegister[selector.Profile]
 	if !ok {
 		return nil, fmt.Errorf("unknown profile: %q", selector.Profile)
@@ -199,6 +205,34 @@ func DecodeClaimsFromCBOR(buf []byte) (IClaims, error) {
 	}
 
 	return claims, nil
+}
+
+// startsWithCBORMap reports whether buf starts with a CBOR map (Major Type 5),
+// possibly wrapped in tags.
+func startsWithCBORMap(buf []byte) bool {
+	for len(buf) > 0 {
+		majorType, additionalInfo := buf[0]>>5, buf[0]&0x1f
+		if majorType != 6 {
+			return majorType == 5
+		}
+
+		// skip the tag number
+		n := 1
+		switch {
+		case additionalInfo < 24:
+		case additionalInfo <= 27:
+			n += 1 << (additionalInfo - 24)
+		default:
+			return false
+		}
+
+		if len(buf) < n {
+			return false
+		}
+		buf = buf[n:]
+	}
+
+	return false
 }
 
 // Deprecated: use DecodeAndValidateClaimsFromJSON instead.
